@@ -244,7 +244,7 @@ def rule_subst(e, pairs):
         e.rewrites.append("subst %r -> %r x%d" % (frm, to, k))
 
 
-def extract_block(path, text, start_anchor, end_anchor, wrapper_head, include_end=True):
+def extract_block(path, text, start_anchor, end_anchor, wrapper_head, include_end=True, tail=""):
     """R5: statements between two anchor lines wrapped into a function."""
     i = text.find(start_anchor)
     if i < 0 or text.find(start_anchor, i + 1) >= 0:
@@ -258,7 +258,7 @@ def extract_block(path, text, start_anchor, end_anchor, wrapper_head, include_en
         le = text.rfind('\n', 0, j)
     body = text[ls:le]
     line = text.count('\n', 0, ls) + 1
-    e = Extracted(path, "block:" + start_anchor.strip(), wrapper_head + " {\n#line %d \"%s\"\n" % (line, path) + body + "\n}\n", line, (ls, le))
+    e = Extracted(path, "block:" + start_anchor.strip(), wrapper_head + " {\n#line %d \"%s\"\n" % (line, path) + body + "\n" + tail + "\n}\n", line, (ls, le))
     e.rewrites.append("R5 block %r .. %r wrapped in %s" % (start_anchor.strip(), end_anchor.strip(), wrapper_head))
     e.raw_body = body
     return e
